@@ -150,6 +150,7 @@ type ruleProg struct {
 	checker string
 	kind    string // "expr" | "stmts"
 	body    string
+	spec    int // index into ruleSpecs
 }
 
 type ruleSpec struct {
@@ -159,6 +160,8 @@ type ruleSpec struct {
 	// rewrite derives (original, replacement) from a diagnostic; ok=false: the diagnostic makes no equivalence claim
 	rewrite func(l *exprgen.Linted, w linter.Warning, body string) (orig, repl string, ok bool)
 	class   func(orig, repl string) string
+	// classIn, when set, attributes a failing rewrite using the failing input as well
+	classIn func(orig string, in exprgen.Input) string
 	weight  int // how many instances relative to the default (0 = 1)
 	// fixed: instances every run contains (the boundary questions of the matcher: how the literal 1 is matched,
 	// which operand forms count as $x), besides the sampled ones
@@ -398,7 +401,66 @@ var handSpecs = []ruleSpec{
 		}},
 }
 
-var ruleSpecs = append([]ruleSpec{
+// wrapperFunc's strings.Cut rules match statement SEQUENCES; the quick fix carries a `{ ... }` placeholder, so the
+// replacement the message describes is built here.  Separators of every length (the rewrite keeps `$s[$i+1:]`
+// = everything after the FIRST BYTE of the separator; Cut returns what follows the whole separator).
+var cutSeps = []string{`","`, `"="`, `", "`, `"::"`, `"abc"`, `"é"`, "t"}
+
+func cutBody(form, sep string, cut bool) string {
+	switch form {
+	case "if", "ifge":
+		cond := "i != -1"
+		if form == "ifge" {
+			cond = "i >= 0"
+		}
+		if cut {
+			return "var x1, y1 string; var ok bool; if x1, y1, ok = strings.Cut(s, " + sep + "); ok { c = 1 }; s, t = x1, y1"
+		}
+		return "var x1, y1 string; if i := strings.Index(s, " + sep + "); " + cond + " { x1, y1 = s[:i], s[i+1:]; c = 1 }; s, t = x1, y1"
+	}
+	// the unguarded sequence, on a string that contains the separator
+	if cut {
+		return "var x1, y1 string; s2 := s + " + sep + " + s; x1, y1, _ = strings.Cut(s2, " + sep + "); s, t = x1, y1"
+	}
+	return "var x1, y1 string; s2 := s + " + sep + " + s; i := strings.Index(s2, " + sep + "); x1, y1 = s2[:i], s2[i+1:]; s, t = x1, y1"
+}
+
+var cutSpec = ruleSpec{checker: "wrapperFunc", kind: "stmts",
+	gen: func(p func(...string) string) string {
+		return cutBody(p("if", "ifge", "seq"), p(cutSeps...), false)
+	},
+	rewrite: func(l *exprgen.Linted, w linter.Warning, body string) (string, string, bool) {
+		if !strings.Contains(w.Text, "strings.Cut(") {
+			return "", "", false
+		}
+		for _, form := range []string{"if", "ifge", "seq"} {
+			for _, sep := range cutSeps {
+				if cutBody(form, sep, false) == body {
+					return body, cutBody(form, sep, true), true
+				}
+			}
+		}
+		return "", "", false
+	},
+	class: func(orig, _ string) string { return "unclassified" },
+	classIn: func(orig string, in exprgen.Input) string {
+		sep := in.T
+		for _, lit := range cutSeps {
+			if lit != "t" && strings.Contains(orig, ", "+lit+")") {
+				sep, _ = strconv.Unquote(lit)
+			}
+		}
+		if !strings.Contains(orig, "s2 :=") && !strings.Contains(in.S, sep) {
+			// `if x, y, ok = strings.Cut(s, sep); ok {` assigns x = s, y = "" before ok is looked at
+			return "cut-assigns-when-separator-absent"
+		}
+		if len(sep) != 1 {
+			return "cut-separator-not-one-byte"
+		}
+		return "unclassified"
+	}}
+
+var ruleSpecs = append([]ruleSpec{cutSpec,
 	{checker: "sloppyLen", kind: "expr",
 		gen: func(p func(...string) string) string {
 			return "len(" + p("s", "xs", "bs", "fs()", "fxs()", "s + t", "ms", "mi", "mm", "ma", "pa", "w.buf") + ") " + p("<= 0", "<= 0", "<= 00")
@@ -675,7 +737,7 @@ func runRules(meta *common.Meta, tier string, seed int64, outDir string) {
 	r := common.NewRand(seed, "c10-rules")
 	pick := func(xs ...string) string { return xs[r.Intn(len(xs))] }
 	var progs []*ruleProg
-	for _, sp := range ruleSpecs {
+	for si, sp := range ruleSpecs {
 		seen := map[string]bool{}
 		want := perRule
 		if sp.weight > 0 {
@@ -684,7 +746,7 @@ func runRules(meta *common.Meta, tier string, seed int64, outDir string) {
 		for _, b := range sp.fixed {
 			if !seen[b] {
 				seen[b] = true
-				progs = append(progs, &ruleProg{fn: fmt.Sprintf("r%d", len(progs)), checker: sp.checker, kind: sp.kind, body: b})
+				progs = append(progs, &ruleProg{fn: fmt.Sprintf("r%d", len(progs)), checker: sp.checker, kind: sp.kind, body: b, spec: si})
 			}
 		}
 		for tries := 0; tries < want*6 && len(seen) < want; tries++ {
@@ -693,7 +755,7 @@ func runRules(meta *common.Meta, tier string, seed int64, outDir string) {
 				continue
 			}
 			seen[b] = true
-			progs = append(progs, &ruleProg{fn: fmt.Sprintf("r%d", len(progs)), checker: sp.checker, kind: sp.kind, body: b})
+			progs = append(progs, &ruleProg{fn: fmt.Sprintf("r%d", len(progs)), checker: sp.checker, kind: sp.kind, body: b, spec: si})
 		}
 	}
 	const sig = exprgen.Params + ", tm time.Time"
@@ -732,14 +794,14 @@ func runRules(meta *common.Meta, tier string, seed int64, outDir string) {
 		text string
 	}
 	stmtObs := map[string][]string{}
-	for _, sp := range ruleSpecs {
+	for si, sp := range ruleSpecs {
 		ws, err := l.Run(sp.checker)
 		if err != nil {
 			panic(err)
 		}
 		for _, w := range ws {
 			p := byFn[l.FuncOf(w.Pos)]
-			if p == nil || p.checker != sp.checker {
+			if p == nil || p.spec != si {
 				continue
 			}
 			stmtObs[p.fn] = append(stmtObs[p.fn], w.Text)
@@ -809,7 +871,10 @@ func runRules(meta *common.Meta, tier string, seed int64, outDir string) {
 	sort.SliceStable(mm, func(i, j int) bool { return len(mm[i].Case.Orig) < len(mm[j].Case.Orig) })
 	for _, m := range mm {
 		t := m.Case.Tag.(tag)
-		key := "C10/" + t.p.checker + "/" + specOf[t.p.checker].class(m.Case.Orig, m.Case.New)
+		key := "C10/" + t.p.checker + "/" + ruleSpecs[t.p.spec].class(m.Case.Orig, m.Case.New)
+		if ci := ruleSpecs[t.p.spec].classIn; ci != nil {
+			key = "C10/" + t.p.checker + "/" + ci(m.Case.Orig, m.Input)
+		}
 		meta.Fail(key, fmt.Sprintf("%s: `%s` => `%s` changes behaviour: original %s, suggestion %s", t.p.checker, m.Case.Orig, m.Case.New, m.Orig, m.New),
 			map[string]interface{}{"original": m.Case.Orig, "suggestion": m.Case.New, "message": t.text, "input": m.Input, "original_result": m.Orig, "suggested_result": m.New})
 	}
